@@ -75,7 +75,7 @@ def strategy_of(facts, x):
             return ('GroupBy', 'expr', render(kd) if kd else '?')
         return (v,)
     if x[0] == 'arg':
-        return ('param', x[2])
+        return ('param', 'arg%d' % x[1])       # by position: parameter names are not part of the rule
     return ('?', render(x)[:80])
 
 
@@ -84,7 +84,7 @@ def replication_of(x):
     if x[0] == 'agg' and x[1][0] == 'adt' and x[1][1] == REPL:
         return ('const', x[1][2])
     if x[0] == 'arg':
-        return ('param', x[2])
+        return ('param', 'arg%d' % x[1])
     if x[0] == 'call' and x[1].startswith(REPL):
         return ('call', x[1].rsplit('::', 1)[-1])
     return ('expr', render(x)[:80])
@@ -186,9 +186,9 @@ def effects(facts, fn, depth=0, stack=()):
 
 
 def param_index(fn, name):
-    for n, pl in fn.vars:
-        if n == name and is_local(pl) and 1 <= pl[0] <= fn.argc:
-            return pl[0]
+    """MIR local of the parameter designated by an ('param', 'argN') effect"""
+    if name.startswith('arg') and name[3:].isdigit() and 1 <= int(name[3:]) <= fn.argc:
+        return int(name[3:])
     return None
 
 
